@@ -16,9 +16,10 @@ verus! {
 //@type Arc<dynCompactionFilterFactory+'static> => FilterFactory
 //@path std::fs::read_dir => fs_read_dir
 //@path std::fs::remove_dir_all => fs_remove_dir_all
+//@path std::fs::remove_file => fs_remove_file
 //@path KeyspaceCreateOptions::from_kvs => CreateOptions::from_kvs
 //@path KeyspaceCreateOptions => CreateOptions
-//@world is_deleted.store meta_keyspace.resolve_id fs_remove_dir_all keyspaces_lock.insert CreateOptions::from_kvs keyspaces.get keyspaces.write .get keyspace_id_counter.next keyspace_id_counter.set meta_keyspace.create_keyspace
+//@world is_deleted.load fs_remove_file is_deleted.store meta_keyspace.resolve_id fs_remove_dir_all keyspaces_lock.insert CreateOptions::from_kvs keyspaces.get keyspaces.write .get keyspace_id_counter.next keyspace_id_counter.set meta_keyspace.create_keyspace
 
 pub mod atomic_shim { pub use std::sync::atomic::Ordering; }
 // ---- ghost world of this unit: deleted flags and the meta dictionary
@@ -26,7 +27,8 @@ pub struct World { pub deleted: Map<int, bool>, pub names: Set<Seq<u8>>, pub met
     pub removed_dirs: Seq<int>, pub meta_names: Map<u64, Seq<u8>>, pub registered: Map<Seq<u8>, RegG>, pub opts_in_meta: Map<u64, CreateOptions>,
     pub next_ks_id: u64,              // Database.keyspace_id_counter: next internal keyspace id to hand out
     pub journal_ids: Set<u64>,        // keyspace ids that occur in a record of a journal file that still exists
-    pub absent_under_write_lock: Set<Seq<u8>> }   // names found absent from the dictionary inside the CURRENT write-lock critical section
+    pub absent_under_write_lock: Set<Seq<u8>>,
+    pub fs_log: Seq<(bool, int)> }    // unlink events in order: (is_directory, path identity)   // names found absent from the dictionary inside the CURRENT write-lock critical section
 pub struct AtomicBool { pub id: Ghost<int> }
 impl AtomicBool {
     #[verifier::external_body]
@@ -59,7 +61,8 @@ pub struct WorkerPool { pub sender: Sender<WorkerMessage> }
 pub struct KeyspaceKey { pub s: Ghost<Seq<u8>> }
 pub struct AnyTree { pub id: Ghost<int>, pub cfg: Ghost<LsmConfigG> }
 pub struct PathBuf { pub id: Ghost<int> }
-impl PathBuf { #[verifier::external_body] pub fn join<T>(&self, t: T) -> (r: PathBuf) { unimplemented!() } }
+pub uninterp spec fn joined<T>(dir: int, t: T) -> int;   // identity of <dir>/<t>
+impl PathBuf { #[verifier::external_body] pub fn join<T>(&self, t: T) -> (r: PathBuf) ensures r.id@ == joined(self.id@, t) { unimplemented!() } }
 #[verifier::external_body] pub fn fs_create_dir_all(p: &PathBuf) -> (r: Result<(), IoError>) { unimplemented!() }
 pub const KEYSPACES_FOLDER: u8 = 0;
 pub struct DbConfig { pub path: PathBuf, pub descriptor_table: DescriptorTable, pub cache: Cache, pub compaction_filter_factory_assigner: Option<Assigner> }
@@ -180,8 +183,21 @@ pub open spec fn cfg_matches_but_factory(g: LsmConfigG, o: CreateOptions, f: Opt
     && g.filter_policy == o.filter_policy.v@ && g.filter_factory == f
 }
 pub struct RegG { pub id: u64, pub cfg: LsmConfigG, pub factory: Option<int>, pub poison: int, pub lock: int }
-#[verifier::external_body] pub fn fs_remove_dir_all(p: PathBuf, Tracked(w): Tracked<&mut World>) -> (r: Result<(), IoError>)
-    ensures r is Ok ==> *final(w) == (World { removed_dirs: old(w).removed_dirs.push(p.id@), ..*old(w) }), r is Err ==> *final(w) == *old(w) { unimplemented!() }
+pub trait PathLike { spec fn pid(&self) -> int; }
+impl PathLike for PathBuf { open spec fn pid(&self) -> int { self.id@ } }
+impl<'a> PathLike for &'a PathBuf { open spec fn pid(&self) -> int { self.id@ } }
+#[verifier::external_body] pub fn fs_remove_dir_all<P: PathLike>(p: P, Tracked(w): Tracked<&mut World>) -> (r: Result<(), IoError>)
+    ensures r is Ok ==> *final(w) == (World { removed_dirs: old(w).removed_dirs.push(p.pid()), fs_log: old(w).fs_log.push((true, p.pid())), ..*old(w) }), r is Err ==> *final(w) == *old(w) { unimplemented!() }
+#[verifier::external_body] pub fn fs_remove_file<P: PathLike>(p: P, Tracked(w): Tracked<&mut World>) -> (r: Result<(), IoError>)
+    ensures r is Ok ==> *final(w) == (World { fs_log: old(w).fs_log.push((false, p.pid())), ..*old(w) }), r is Err ==> *final(w) == *old(w) { unimplemented!() }
+pub struct TreeConfig { pub path: PathBuf }
+impl AnyTree { #[verifier::external_body] pub fn tree_config(&self) -> (r: &TreeConfig) ensures r.path.id@ == tree_dir(self.id@) { unimplemented!() } }
+pub uninterp spec fn tree_dir(tree: int) -> int;
+impl AtomicBool {
+    #[verifier::external_body]
+    pub fn load(&self, o: atomic_shim::Ordering, Tracked(w): Tracked<&mut World>) -> (r: bool)
+        ensures *final(w) == *old(w), old(w).deleted.dom().contains(self.id@) ==> r == old(w).deleted[self.id@] { unimplemented!() }
+}
 pub const LSM_CURRENT_VERSION_MARKER: u8 = 1;
 impl MetaKeyspace {
     #[verifier::external_body]
@@ -326,6 +342,18 @@ impl std::ops::Deref for Keyspace { type Target = KeyspaceInner; fn deref(&self)
         r is Ok ==> r->Ok_0.0.t.supervisor == db.supervisor && r->Ok_0.0.t.id == keyspace_id && r->Ok_0.0.t.config == config && r->Ok_0.0.t.name == name,
         r is Ok ==> cfg_matches(r->Ok_0.0.t.tree.cfg@, config), // [C16:options-forwarded-to-tree] [C18:filter-factory-forwarded-to-tree]
         r is Ok ==> r->Ok_0.0.t.tree.cfg@.seqno == db.supervisor.seqno.id@ && r->Ok_0.0.t.tree.cfg@.visible == db.supervisor.snapshot_tracker.visible.id@, // [C06:trees-share-the-database-counters]
+//@end
+
+//@extract src/keyspace/mod.rs :: Drop for KeyspaceInner :: drop world inherent props=C12
+//@contract
+    requires old(w).deleted.dom().contains(old(self).is_deleted.id@),
+    ensures
+        // the files of a keyspace that was NOT deleted are never removed by dropping its last handle
+        !old(w).deleted[old(self).is_deleted.id@] ==> *final(w) == *old(w), // [C12:dropping-a-live-keyspace-removes-nothing]
+        // a deleted keyspace: the manifest goes first, the directory only after that succeeded (a half-removed keyspace must be
+        // recognised as uninitialised by recover_keyspaces, never resurrected)
+        old(w).deleted[old(self).is_deleted.id@] ==> ({ let d = tree_dir(old(self).tree.id@); let m = joined(d, LSM_CURRENT_VERSION_MARKER);
+            final(w).fs_log == old(w).fs_log || final(w).fs_log == old(w).fs_log.push((false, m)) || final(w).fs_log == old(w).fs_log.push((false, m)).push((true, d)) }), // [C12:manifest-removed-before-the-directory]
 //@end
 
 //@extract src/db.rs :: Database :: delete_keyspace world props=C12
